@@ -48,6 +48,14 @@ Definition ref_off (ops : list lop) : Z :=
   fold_left (fun acc o => match o with OOffset n => if 0 <? n then n else 0 | OLimit _ => acc end) ops 0.
 Definition nonzero_ops (ops : list lop) : bool :=
   forallb (fun o => match o with OLimit n | OOffset n => negb (n =? 0) end) ops.
+(* the text determines the reading as soon as the LAST Limit and the LAST Offset of the chain are
+   not zero (earlier zeros are overridden or cancelled like any other earlier value) *)
+Definition last_lim (ops : list lop) : option Z :=
+  fold_left (fun acc o => match o with OLimit n => Some n | OOffset _ => acc end) ops None.
+Definition last_off (ops : list lop) : option Z :=
+  fold_left (fun acc o => match o with OOffset n => Some n | OLimit _ => acc end) ops None.
+Definition nz (o : option Z) : bool := match o with Some n => negb (n =? 0) | None => true end.
+Definition last_nonzero (ops : list lop) : bool := nz (last_lim ops) && nz (last_off ops).
 Definition ref_state (ops : list lop) : lstate :=
   {| lim := ref_lim ops; off := ref_off ops |}.
 
@@ -56,7 +64,27 @@ Definition ref_state (ops : list lop) : lstate :=
 Definition row := (Z * Z)%type.
 Definition rid (r : row) := fst r.
 
-Inductive cond := CAll | CMod (m r : Z) | CGt (k : Z) | CNone | COrModGt (m r k : Z).
+(* atoms of a chain of Where / Or / Not calls, and the calls that follow the first Where *)
+Inductive acond := AMod (m r : Z) | AGt (k : Z) | ALt (k : Z) | AVGt (k : Z).
+Inductive ckind := KWhere | KOr | KNot.
+Definition acond_holds (a : acond) (r : row) : bool :=
+  match a with
+  | AMod m r0 => (rid r) mod m =? r0
+  | AGt k => k <? rid r
+  | ALt k => rid r <? k
+  | AVGt k => k <? snd r
+  end.
+(* SQL reading of Where(a0).k1(a1).k2(a2)...: AND binds tighter than OR; [acc] is the value of the
+   finished OR alternatives, [cur] the value of the AND group being read *)
+Fixpoint seq_holds (l : list (ckind * acond)) (acc cur : bool) (r : row) : bool :=
+  match l with
+  | [] => acc || cur
+  | (KWhere, a) :: t => seq_holds t acc (cur && acond_holds a r) r
+  | (KNot, a) :: t => seq_holds t acc (cur && negb (acond_holds a r)) r
+  | (KOr, a) :: t => seq_holds t (acc || cur) (acond_holds a r) r
+  end.
+Inductive cond := CAll | CMod (m r : Z) | CGt (k : Z) | CNone | COrModGt (m r k : Z)
+                | CSeq (a : acond) (l : list (ckind * acond)).
 Definition cond_holds (c : cond) (r : row) : bool :=
   match c with
   | CAll => true
@@ -64,6 +92,7 @@ Definition cond_holds (c : cond) (r : row) : bool :=
   | CGt k => k <? rid r
   | CNone => false
   | COrModGt m r0 k => ((rid r) mod m =? r0) || (k <? rid r)   (* Where(..).Or(..) *)
+  | CSeq a l => seq_holds l false (acond_holds a r) r
   end.
 
 Inductive ordering := OrdNone | OrdIdAsc | OrdIdDesc | OrdVAsc.
